@@ -17,6 +17,10 @@ RE-SUBSCRIPTION (field 'runs' = [k1, k2, ...]): ONE dump pipeline object source.
 deferred source and ONE load_from_file observable are built once and subscribed once per run (the runs write the
 same path again, or - io open_obj - different files); run r delivers its own k_r rows (also 0 rows) and after
 each run the file must hold exactly the rows of THAT run.  The Coq model recomputes one of the runs (field 'sel').
+KEY ORDER (field 'ko'): the row dicts pushed into dump_to_file carry their keys in schema order ('schema'), in
+reversed schema order ('reversed'), in one random permutation for the whole case (['perm', seed]) or in a fresh
+random permutation for every ROW (['rowperm', seed]); the key order of a dict is not part of the value of a row
+(equal dicts), so the file must hold the same rows BY FIELD NAME (file columns in schema order) whatever the order.
 Plus: rs.data.batch(n) alone, per-step emissions (kind 'batch')."""
 import json
 import math
@@ -45,6 +49,11 @@ RULE = ('cases: row count k x dump batch size n x load batch size m x row_group_
         'own k_r rows (k_r = 0, < n, = n, multiples of n, > n; empty first / empty later run), to the same path '
         '(rewritten) or to different files (open_obj); after EACH run the file must hold exactly the rows of that '
         'run (positional identification); exhaustive k1,k2 in {0,1,n-1,n,n+1,2n,2n+1} x n in {1,2,3,4}. '
+        'KEY ORDER of the source row dicts (field ko, every row family above incl. generated schemas with several '
+        'columns of one type, where exchanged columns raise nothing): schema order | reversed | one random '
+        'permutation per case | a fresh random permutation per ROW (from the seed in the case); a row is equal to '
+        'the source row only if every FIELD NAME carries the source value of that name and the columns of the file '
+        'are in schema order; exhaustive key order x fixed schema x (k,n) in {(1,1),(2,1),(5,2)}; 2-3 columns of ONE type x every column type x every non-schema key order. '
         'non-trivial = k > n (at least two batches written); distinct = distinct '
         'case JSON')
 TRUSTED = ['NOT modelled: pyarrow (RecordBatch.from_arrays, ParquetWriter, compression codecs, ParquetFile.iter_batches, '
@@ -53,7 +62,7 @@ TRUSTED = ['NOT modelled: pyarrow (RecordBatch.from_arrays, ParquetWriter, compr
            'modelled not verified: rs.ops.scan/filter/map plumbing of rs.data.batch (the batch model is compared with '
            'rs.data.batch directly in the `batch` cases), RxPY synchronous delivery, Python list/dict semantics']
 ASSUMPTIONS = ['batch.py and parquet.py modelled as repaired (DESIGN-repairs.md hunks e, k)',
-               'rows are dicts matching the schema; batch sizes >= 1']
+               'rows are dicts matching the schema (keys in ANY order); batch sizes >= 1']
 SHARD = 150
 COQ_TARGETS = ['theories/Container/C20Corr.vo']
 
@@ -213,6 +222,60 @@ def positional(case):
     return bool(case.get('pat')) or is_gen(case['schema']) or bool(case.get('runs'))
 
 
+KEY_ORDERS = ['schema', 'reversed', 'perm', 'rowperm']
+
+
+def gen_key_order(rng):
+    t = rng.choice(KEY_ORDERS)
+    return t if t in ('schema', 'reversed') else [t, rng.randrange(10 ** 6)]
+
+
+def ko_label(case):
+    ko = case.get('ko') or 'schema'
+    return ko if isinstance(ko, str) else ko[0]
+
+
+def column_names(schema):
+    return [n for n, _ in schema['cols']] if is_gen(schema) else list(schema_of(schema).names)
+
+
+def _shuffled(rng, names):
+    """a random permutation of names, not the identity if there is another one"""
+    p = list(names)
+    for _ in range(8):
+        rng.shuffle(p)
+        if p != names:
+            break
+    return p
+
+
+def key_orders(case, k, run=0):
+    """the order of the keys of each of the k row dicts pushed into dump_to_file (a list of column names per row)"""
+    names = column_names(case['schema'])
+    ko = case.get('ko') or 'schema'
+    if ko == 'schema':
+        return [names] * k
+    if ko == 'reversed':
+        return [names[::-1]] * k
+    rng = random.Random(ko[1] * 64 + run)
+    if ko[0] == 'perm':             # one permutation for all the rows of the case (of the run)
+        return [_shuffled(rng, names)] * k
+    if ko[0] == 'rowperm':          # a fresh permutation for every row
+        return [_shuffled(rng, names) for _ in range(k)]
+    raise ValueError('unknown key order %r' % (ko,))
+
+
+def pushed_rows(case, rows, run=0):
+    """fresh dicts EQUAL to `rows` (same value under every field name) with their keys inserted in the order `ko`"""
+    return [{n: r[n] for n in order} for r, order in zip(rows, key_orders(case, len(rows), run))]
+
+
+def same_typed_columns(schema):
+    """number of columns that share their type with another column (exchanging them raises nothing)"""
+    ts = [json.dumps(t) for _, t in schema['cols']] if is_gen(schema) else [str(t) for t in schema_of(schema).types]
+    return sum(1 for t in ts if ts.count(t) > 1)
+
+
 def equal_consecutive_batches(case):
     """number of full dump batches whose rows are equal (by value) to the rows of the batch before"""
     if not case.get('pat'):
@@ -267,7 +330,8 @@ def mk(rng, k, n, m=None, **kw):
     c = {'kind': 'pq', 'k': k, 'n': n, 'm': m if m is not None else rng.choice([1, 2, 3, 7, 100, 1000, 1024, 2000]),
          'rg': rng.choice([None, None, None, 1, 2, 5, 64, 1000, 5000]),
          'comp': rng.choice(COMP), 'schema': rng.choice(['flat', 'nested', 'wide']),
-         'io': rng.choice(['path', 'path', 'fileobj', 'open_obj']), 'seed': rng.randrange(10 ** 6)}
+         'io': rng.choice(['path', 'path', 'fileobj', 'open_obj']), 'seed': rng.randrange(10 ** 6),
+         'ko': gen_key_order(rng)}
     c.update(kw)
     # keep the number of record batches / row groups per file moderate (each costs ~1 ms in pyarrow)
     while c['k'] > 120 * c['n']:
@@ -336,6 +400,13 @@ def generated_schemas(rng, tier):
                 for k in sorted({0, 1, 2, n, 2 * n + 1}):
                     out.append(mk(rng, k, n, rng.choice([1, 2, 5, 1024]), rg=rng.choice([None, None, 2]),
                                   schema={'cols': [[rng.choice(NAMES), t]]}))
+        # two and three columns of ONE type (exchanged columns raise nothing), keys not in schema order
+        for t in ONE_COLUMN_TYPES:
+            for ko in KEY_ORDERS[1:]:
+                n = rng.choice([1, 2, 3])
+                out.append(mk(rng, rng.choice([1, 2, n, 2 * n + 1, 7]), n, rng.choice([1, 2, 5, 1024]),
+                              schema={'cols': [[nm, t] for nm in rng.sample(NAMES, rng.choice([2, 3]))]},
+                              ko=ko if ko == 'reversed' else [ko, rng.randrange(10 ** 6)]))
     for _ in range({'quick': 200, 'thorough': 1800, 'search': 60}[tier]):
         sch = gen_schema(rng)
         n = rng.choice([1, 2, 3, 4, 7, 16, 100, 1024])
@@ -351,6 +422,10 @@ def generate(rng, tier):
         {'kind': 'pq', 'k': 4, 'n': 2, 'm': 3, 'rg': None, 'comp': 'snappy', 'schema': 'flat', 'io': 'path', 'seed': 1},
         {'kind': 'pq', 'k': 5, 'n': 2, 'm': 1024, 'rg': None, 'comp': 'none', 'schema': 'nested', 'io': 'fileobj', 'seed': 2},
         {'kind': 'batch', 'k': 6, 'n': 3},
+        {'kind': 'pq', 'k': 5, 'n': 2, 'm': 2, 'rg': None, 'comp': 'snappy', 'schema': 'wide', 'io': 'path', 'seed': 3,
+         'ko': 'reversed'},
+        {'kind': 'pq', 'k': 7, 'n': 3, 'm': 1024, 'rg': None, 'comp': 'none', 'schema': 'wide', 'io': 'path', 'seed': 4,
+         'ko': ['rowperm', 5]},
     ]
     if tier == 'search':
         for _ in range(150):
@@ -387,6 +462,12 @@ def generate(rng, tier):
         kmax = 400 if tier == 'quick' else 5000
         k = rng.choice([rng.randrange(0, kmax + 1), min(kmax, n * rng.randrange(0, 5)), rng.randrange(0, 30)])
         cases.append(mk(rng, k, n))
+    # every key order of the row dicts x fixed schema, small sizes
+    for ko in KEY_ORDERS:
+        for sch in ('flat', 'nested', 'wide'):
+            for k, n in ((1, 1), (2, 1), (5, 2)):
+                cases.append(mk(rng, k, n, rng.choice([1, 2, 5, 1024]), schema=sch, rg=rng.choice([None, None, 2]),
+                                ko=ko if ko in ('schema', 'reversed') else [ko, rng.randrange(10 ** 6)]))
     # repeated row content (several source rows equal in every column) over at least two full batches
     cases += repeated_content(rng, tier)
     # generated schemas: exactly one column (every type), two columns, many columns
@@ -433,7 +514,8 @@ def run_impl(case):
         return open(paths[current[0]], mode)
 
     def source(_=None):
-        return rx.from_([dict(r) for r in rows_by_run[current[0]]])
+        # fresh dicts, equal to the source rows, keys inserted in the key order of the case
+        return rx.from_(pushed_rows(case, rows_by_run[current[0]], current[0]))
 
     kw = {}
     target, fobj = paths[0], None
@@ -479,6 +561,14 @@ def run_impl(case):
         else:
             in_file = pq.read_table(path).to_pylist()
             file_idx = indices(in_file, src_canon, pos)
+            if SENTINEL in file_idx and ko_label(case) != 'schema':
+                # diagnostic only: how many rows of the file hold, column by column, the values of the pushed dict
+                # of the same position taken in KEY order (i-th key -> i-th column) although not equal to it by name
+                names = column_names(case['schema'])
+                bypos = [canon(dict(zip(names, d.values()))) for d in pushed_rows(case, rows_by_run[r], r)]
+                obs['rows_filled_by_key_position'] = sum(
+                    1 for j, x in enumerate(in_file)
+                    if j < len(bypos) and file_idx[j] == SENTINEL and isinstance(x, dict) and canon(x) == bypos[j])
             if r and SENTINEL in file_idx:
                 # diagnostic only: how many rows of the file are rows an EARLIER run delivered (and not this run's)
                 mine = set(src_canon)
@@ -522,9 +612,10 @@ def judge(case, k, obs, run=None):
     at = '' if run is None else '@resub'
     pre = '' if run is None else 'run %d of %s through ONE dump pipeline object (io %s): ' % (run + 1, case['runs'], case['io'])
     want = [[0, k]] if k else []
+    kord = '' if ko_label(case) == 'schema' else ' [keys of the row dicts in order %s]' % (case['ko'],)
     if obs['dump_end'] != ['completed']:
-        return {'sig': 'parquet:dump-end' + at, 'what': pre + 'dump_to_file ended with %s (schema %s, %d rows)'
-                % (obs['dump_end'], schema_label(case['schema']), k)}
+        return {'sig': 'parquet:dump-end' + at, 'what': pre + 'dump_to_file ended with %s (schema %s, %d rows)%s'
+                % (obs['dump_end'], schema_label(case['schema']), k, kord)}
     if obs['file_runs'] != want:
         fr = obs['file_runs']
         flat = [i for s, l in fr[:50] for i in range(s, s + l)] if all(s != SENTINEL for s, l in fr[:50]) else []
@@ -538,13 +629,18 @@ def judge(case, k, obs, run=None):
             sig, why = 'parquet:file-rows-differ', 'file rows are not the source rows'
         if obs.get('rows_of_earlier_runs'):
             why += ' (%d rows of the file are rows an earlier run delivered)' % obs['rows_of_earlier_runs']
+        if obs.get('rows_filled_by_key_position'):
+            sig = 'parquet:columns-by-key-position'
+            why += ' (%d rows of the file hold the i-th VALUE of the row dict in column i instead of the value of the ' \
+                   'field of that name)' % obs['rows_filled_by_key_position']
+        why += kord
         return {'sig': sig + at, 'what': '%s%s: %d source rows, batch_size %d -> %d rows in the file, runs (start,len) %s, '
                 'row groups %s%s%s' % (pre, why, k, n, obs['file_n'], fr[:6], obs['rg_sizes'][:8],
                                        ' row pattern %s' % case['pat'] if case.get('pat') else '',
                                        ' schema %s' % case['schema']['cols'][:3] if is_gen(case['schema']) else '')}
     if obs['load_end'] != ['completed'] or obs['load_runs'] != want:
-        return {'sig': 'parquet:load-differs' + at, 'what': pre + 'load_from_file(batch_size=%d): end %s, runs %s, want %s'
-                % (case['m'], obs['load_end'], obs['load_runs'][:6], want)}
+        return {'sig': 'parquet:load-differs' + at, 'what': pre + 'load_from_file(batch_size=%d): end %s, runs %s, want %s%s'
+                % (case['m'], obs['load_end'], obs['load_runs'][:6], want, kord)}
     want_codec = {'none': 'UNCOMPRESSED', 'snappy': 'SNAPPY', 'gzip': 'GZIP', 'zstd': 'ZSTD'}[case['comp']]
     if k and obs['codec'] != want_codec:
         return {'sig': 'parquet:codec', 'what': 'file written with %s, asked %s' % (obs['codec'], want_codec)}
@@ -580,7 +676,9 @@ def describe(cases, obs):
          'cases_with_a_batch_equal_to_the_previous_batch': 0, 'equal_consecutive_batches': 0,
          'one_column_schema_types': {}, 'max_columns': 0, 'resubscription_cases': 0, 'resubscription_runs': 0,
          'resub_empty_later_run': 0, 'resub_empty_first_run': 0, 'resub_first_run_fills_a_batch': 0,
-         'resub_to_different_files': 0}
+         'resub_to_different_files': 0, 'key_order': {}, 'key_order_by_schema': {},
+         'rows_pushed_with_keys_not_in_schema_order': 0,
+         'cases_keys_not_in_schema_order_and_several_columns_of_one_type': 0}
     ks = set()
     for c, o in zip(cases, obs):
         d[c['kind']] += 1
@@ -611,6 +709,17 @@ def describe(cases, obs):
             d['resub_first_run_fills_a_batch'] += 1 if r[0] >= n else 0
             d['resub_to_different_files'] += 1 if c['io'] == 'open_obj' else 0
         d['with_row_group_size'] += 1 if c['rg'] else 0
+        kl = ko_label(c)
+        d['key_order'][kl] = d['key_order'].get(kl, 0) + 1
+        if kl != 'schema':
+            lab = schema_label(c['schema'])
+            d['key_order_by_schema'][lab] = d['key_order_by_schema'].get(lab, 0) + 1
+            names, moved = column_names(c['schema']), 0
+            for r, kr in enumerate(run_counts(c)):
+                moved += sum(1 for o in key_orders(c, kr, r) if o != names)
+            d['rows_pushed_with_keys_not_in_schema_order'] += moved
+            d['cases_keys_not_in_schema_order_and_several_columns_of_one_type'] += \
+                1 if moved and same_typed_columns(c['schema']) else 0
         b = str(n) if n in NS else 'other'
         d['dump_batch_sizes'][b] = d['dump_batch_sizes'].get(b, 0) + 1
         d['max_batches_written'] = max(d['max_batches_written'], math.ceil(k / n))
@@ -681,7 +790,11 @@ CLAIM = {
             'snappy/gzip/zstd, int/string/float/struct/list columns, path and file object) is TESTED by the '
             'correspondence run, not proved: real files are written by dump_to_file, the row counts of the row '
             'groups actually written, the rows in the file (read_table) and the rows from load_from_file are compared '
-            'with the values the model computes in Coq, rows being identified by index only when equal in every column.',
+            'with the values the model computes in Coq, rows being identified by index only when equal in every column. '
+            'The source row dicts are pushed with their keys in schema order, reversed, in a random permutation per '
+            'case and in a fresh random permutation per row (the key order of a dict is not part of the value of a '
+            'row and does not appear in the model): a row of the file counts as source row i only if every field NAME '
+            'carries the source value of that name, with the file columns in schema order.',
     'note': 'Trusted: Coq kernel+VM; hand-written model of batch.py/parquet.py as repaired (tied by correspondence only); '
             'pyarrow (oracle, not modelled); rs.ops.scan/filter/map plumbing and RxPY synchronous delivery are modelled, '
             'not verified. Encryption properties are not exercised.',
